@@ -400,6 +400,56 @@ theorem C16_abbrev_spaced (k : Key) (hk : k ∈ allKeys) (ab : Abbrev) (ha : ab.
       some (k.codes, carriesNeg (P ++ renderAbbrev k ab st ++ Q)) :=
   spaced_body hk (body_lower_abbrev k hk ab ha st (styleOk_of_junkOk hj)) hP hQ
 
+/-- **C16 (formulas, spaced decorations, explicit flag).** `d` any spaced decoration (`Spaced.ok`: outer white
+space, an optional `!` followed by any white space, any number of prefix words `not` / `is` in any case each
+followed by an ARBITRARY non-empty white-space string, any number of suffix words each preceded by one):
+every formula spelling resolves to its key and is negated exactly when the decoration carries `!`, a prefix
+`not<ws>` or a suffix `<ws>not` (`Spaced.neg`). -/
+theorem C16_formula_spaced_render (k : Key) (hk : k ∈ allKeys) (st : FormulaStyle) (hj : st.junkOk = true)
+    (d : Spaced) (hd : d.ok = true) :
+    normalize names (renderSpaced d (renderFormula k st)) = some (k.codes, d.neg) :=
+  spaced_render hk (body_lower_formula k hk st (styleOk_of_junkOk hj)) d hd
+
+/-- **C16 (abbreviated formulas, spaced decorations, explicit flag).** -/
+theorem C16_abbrev_spaced_render (k : Key) (hk : k ∈ allKeys) (ab : Abbrev) (ha : ab.applies k = true)
+    (st : FormulaStyle) (hj : st.junkOk = true) (d : Spaced) (hd : d.ok = true) :
+    normalize names (renderSpaced d (renderAbbrev k ab st)) = some (k.codes, d.neg) :=
+  spaced_render hk (body_lower_abbrev k hk ab ha st (styleOk_of_junkOk hj)) d hd
+
+/-- The negation variants in the concrete form of the single-space theorems: `not<W>F`, `F<W>not`, `is<W>F`,
+`F<W>is` with `W` ANY non-empty white-space string (`c :: W` / `W ++ [c]`, `c` a white-space character). -/
+theorem C16_formula_spaced_not_prefix (k : Key) (hk : k ∈ allKeys) (st : FormulaStyle) (hj : st.junkOk = true)
+    {ws wN W : Str} {c : Nat} (hws : ws.all isSpace = true) (hN : lower wN = sNot) (hc : isSpace c = true)
+    (hW : W.all isSpace = true) :
+    normalize names (ws ++ (wN ++ c :: W) ++ renderFormula k st) = some (k.codes, true) := by
+  have := C16_formula_spaced_render k hk st hj { outerL := ws, pre := [⟨wN, c :: W⟩] }
+    (by simp [Spaced.ok, SpWord.ok, hws, hN, hc, hW])
+  simpa [renderSpaced, Spaced.before, Spaced.after, Spaced.neg, SpWord.isNot, hN] using this
+
+theorem C16_formula_spaced_not_suffix (k : Key) (hk : k ∈ allKeys) (st : FormulaStyle) (hj : st.junkOk = true)
+    {ws wN W : Str} {c : Nat} (hws : ws.all isSpace = true) (hN : lower wN = sNot) (hc : isSpace c = true)
+    (hW : W.all isSpace = true) :
+    normalize names (renderFormula k st ++ ((W ++ [c]) ++ wN ++ ws)) = some (k.codes, true) := by
+  have := C16_formula_spaced_render k hk st hj { outerR := ws, post := [⟨wN, W ++ [c]⟩] }
+    (by simp [Spaced.ok, SpWord.ok, hws, hN, hc, hW])
+  simpa [renderSpaced, Spaced.before, Spaced.after, Spaced.neg, SpWord.isNot, hN] using this
+
+theorem C16_formula_spaced_is_prefix (k : Key) (hk : k ∈ allKeys) (st : FormulaStyle) (hj : st.junkOk = true)
+    {ws wI W : Str} {c : Nat} (hws : ws.all isSpace = true) (hI : lower wI = sIs) (hc : isSpace c = true)
+    (hW : W.all isSpace = true) :
+    normalize names (ws ++ (wI ++ c :: W) ++ renderFormula k st) = some (k.codes, false) := by
+  have := C16_formula_spaced_render k hk st hj { outerL := ws, pre := [⟨wI, c :: W⟩] }
+    (by simp [Spaced.ok, SpWord.ok, hws, hI, hc, hW, sIs])
+  simpa [renderSpaced, Spaced.before, Spaced.after, Spaced.neg, SpWord.isNot, hI, sIs, sNot] using this
+
+theorem C16_formula_spaced_is_suffix (k : Key) (hk : k ∈ allKeys) (st : FormulaStyle) (hj : st.junkOk = true)
+    {ws wI W : Str} {c : Nat} (hws : ws.all isSpace = true) (hI : lower wI = sIs) (hc : isSpace c = true)
+    (hW : W.all isSpace = true) :
+    normalize names (renderFormula k st ++ ((W ++ [c]) ++ wI ++ ws)) = some (k.codes, false) := by
+  have := C16_formula_spaced_render k hk st hj { outerR := ws, post := [⟨wI, W ++ [c]⟩] }
+    (by simp [Spaced.ok, SpWord.ok, hws, hI, hc, hW, sIs])
+  simpa [renderSpaced, Spaced.before, Spaced.after, Spaced.neg, SpWord.isNot, hI, sIs, sNot] using this
+
 /-- **C16 (names, white space after `not `).** For names the code is NOT insensitive to the white space:
 what is tolerated is any white space AFTER the literal space of `not ` (it is stripped after the word is
 removed). Every case of the name and of `not`, any outer white space. -/
@@ -428,6 +478,13 @@ theorem C16_names_spaced_limits :
     normalize names (codesOf "is  x<y") = some (codesOf "x≤x<y≤y", false) := by
   decide +kernel
 
+-- Non-vacuity: `\t Not\n\ris\x0b(x1 <= Y2)\x0c\tNOT ` is a spaced rendering of an abbreviation of `x≤x≤y≤y`, negated.
+example : Spaced.ok ⟨[9, 32], none, [⟨codesOf "Not", [10, 13]⟩, ⟨codesOf "is", [11]⟩], [⟨codesOf "NOT", [12, 9]⟩], [32]⟩ = true := by
+  decide +kernel
+example : renderSpaced ⟨[9, 32], none, [⟨codesOf "Not", [10, 13]⟩, ⟨codesOf "is", [11]⟩], [⟨codesOf "NOT", [12, 9]⟩], [32]⟩
+    (codesOf "(x1 <= Y2)") = codesOf "\t Not\n\ris\x0b(x1 <= Y2)\x0c\tNOT " := by decide +kernel
+example : Spaced.neg ⟨[], some [9], [⟨codesOf "IS", [10]⟩], [], []⟩ = true := by decide +kernel
+example : Spaced.neg ⟨[], none, [⟨codesOf "IS", [10]⟩], [⟨codesOf "is", [9, 9]⟩], []⟩ = false := by decide +kernel
 -- Non-vacuity: decoration texts, and the flag of the property's clause on them.
 example : (codesOf " Is\tNOT\n").all decoChar = true := by decide +kernel
 example : (codesOf "\x0b\x0cnot").all decoChar = true := by decide +kernel
